@@ -324,6 +324,11 @@ func childMain(path string) {
 		emit("DONE")
 		return
 	}
+	if len(h.Ops) > 0 && h.Ops[0] == "globalref" {
+		globalRef(&h, emit)
+		emit("DONE")
+		return
+	}
 	if len(h.Ops) > 0 && h.Ops[0] == "failedstart" {
 		failedStart(&h, emit)
 		emit("DONE")
